@@ -155,7 +155,7 @@ CLAIMED['C14'] = {
             'the guard they are refuted by machine-checked witnesses = open known findings KF-C14-1, KF-C14-2): for every source tree (literal, file, program output, line '
             'transformers, filter, run, two-part concat), every mem_buff_size and every access sequence before and after freezing, every view shows the denoted text; verdicts '
             'depend only on the text; M, ( M && M ), ( M || M ) and identity-wrapped M agree; equals agrees over all 3x3 source kinds; the spool keeps the text for every '
-            'buffer size (UTF-8 byte level, round trip proved); n-ary concat and `replace` yield exactly the lines of their text; buffer size irrelevant; a chain nested in a chain is the flat chain and `identity` inserted at any position of any chain changes nothing (for every source, no guard); pre-fix spool and pre-fix concat refuted. 18 theorems closed under the global context.',
+            'buffer size (UTF-8 byte level, round trip proved); n-ary concat and `replace` yield exactly the lines of their text; buffer size irrelevant; a chain nested in a chain is the flat chain and `identity` inserted at any position of any chain changes nothing (for every source, no guard); pre-fix spool and pre-fix concat refuted. 20 theorems closed under the global context.',
     'note': 'Hand-written state-passing interpreter of 14 anchored modules; line transformers and external programs are abstract functions with an admissibility hypothesis '
             '(instances proved for identity, filter, ASCII upper-case, cat, tr, tail). Tie: ~3300 (quick) / 40000 (thorough) differential cases incl. the deviating inputs, '
             'through the real parsers with chosen mem_buff_size, incl. texts of 9-40 KiB, U+FEFF/NUL, program sources whose output differs per run ("one text after freeze" is judged '
